@@ -13,6 +13,7 @@ Top-level directives
   //@end
 
 Sub-directives (inside fn/fragment/arm)
+  //@attr                      following lines go before the item (ghost attributes only)
   //@spec                      following lines go between the signature and the body `{`
   //@loop <n> [ghostname]      following lines go between the n-th loop header and its `{`
   //@before[#k] `anchor`       following lines go before the k-th (default: only) occurrence
@@ -144,7 +145,9 @@ def _process_item(kind, head, sub, meta):
     for (d, tail, lines) in sub:
         order += 1
         ghost = "\n".join(lines)
-        if d == "spec":
+        if d == "attr":
+            inserts.append((0, order, ghost + "\n", "attr"))
+        elif d == "spec":
             if kind != "fn":
                 raise ExtractError(f"{what}: //@spec only valid in //@fn")
             inserts.append((body_open_rel, order, "\n" + ghost + "\n", "spec"))
